@@ -272,6 +272,8 @@ where
                 drop(tx_state);
 
                 let next_finality_idx = finality_idx + 1;
+                #[cfg(grevm_verif)]
+                crate::verif::sched_point("win.finality.before_publish");
                 self.scheduler_ctx.publish_finality(next_finality_idx);
                 if finality_idx == previous_finality_idx {
                     // Start commit as soon as the first transaction in this batch is visible.
@@ -325,6 +327,8 @@ where
         // Read the validation frontier first, then decide status and timestamp eligibility under
         // the transaction lock. Together with contiguous finality, this prevents a candidate from
         // passing a rewind that invalidates it or an earlier transaction.
+        #[cfg(grevm_verif)]
+        crate::verif::sched_point("win.finality.before_lock");
         let tx_state = self.tx_states[finality_idx].lock();
         if tx_state.status != TransactionStatus::Unconfirmed {
             return None;
@@ -332,6 +336,8 @@ where
 
         // Carry the largest rewind timestamp through the contiguous prefix: every later candidate
         // must have been validated after that rewind as well.
+        #[cfg(grevm_verif)]
+        crate::verif::sched_point("win.finality.before_ts");
         let effective_lower_ts = max(lower_ts, self.scheduler_ctx.lower_timestamp(finality_idx));
         (self.scheduler_ctx.unconfirmed_timestamp(finality_idx) > effective_lower_ts)
             .then_some((tx_state, effective_lower_ts))
@@ -349,6 +355,8 @@ where
         while !self.is_aborted() && commit_idx < self.block_size {
             let previous_commit_idx = commit_idx;
             while commit_idx < self.scheduler_ctx.finality_idx() {
+                #[cfg(grevm_verif)]
+                crate::verif::sched_point("win.commit.before_take");
                 let Some(tx_result) = self.tx_results[commit_idx].lock().take() else {
                     self.abort(AbortReason::ParallelError {
                         txid: commit_idx,
@@ -373,8 +381,12 @@ where
                 match outcome {
                     Ok(CommitOutcome::Committed(committed)) => {
                         let next_commit_idx = committed.index();
+                        #[cfg(grevm_verif)]
+                        crate::verif::sched_point("win.commit.before_publish");
                         self.scheduler_ctx.publish_commit(next_commit_idx);
                         // Publish committed state before releasing work that may require it.
+                        #[cfg(grevm_verif)]
+                        crate::verif::sched_point("win.commit.before_dep_commit");
                         self.tx_dependency.commit(commit_idx);
                         commit_idx = next_commit_idx;
                     }
@@ -576,6 +588,8 @@ where
         let tx_env = self.txs[txid].clone();
         let IncarnationExecution { result, accesses } =
             executor.execute_incarnation(tx_version.clone(), tx_env);
+        #[cfg(grevm_verif)]
+        crate::verif::sched_point("win.exec.done");
 
         // If this incarnation expands its write set, already validated suffix transactions may
         // have missed a new predecessor and validation must rewind to this transaction. Existing
@@ -717,9 +731,13 @@ where
             }
         }
 
+        #[cfg(grevm_verif)]
+        crate::verif::sched_point("win.exec.before_status");
         tx_state.status =
             if conflict { TransactionStatus::Conflict } else { TransactionStatus::Executed };
         self.scheduler_ctx.executed(txid);
+        #[cfg(grevm_verif)]
+        crate::verif::sched_point("win.exec.before_rewind");
 
         if let Some(next) = next {
             self.scheduler_ctx.rewind_validation_to(txid);
@@ -770,6 +788,8 @@ where
             return None;
         }
 
+        #[cfg(grevm_verif)]
+        crate::verif::sched_point("win.validate.before_ts");
         // Capture the timestamp before scanning. A concurrent later rewind then has a newer lower
         // bound and prevents this validation from reaching finality.
         let ts = self.scheduler_ctx.logical_timestamp();
@@ -815,6 +835,8 @@ where
                 conflict = true;
             }
         }
+        #[cfg(grevm_verif)]
+        crate::verif::sched_point("win.validate.after_scan");
         if conflict {
             self.metrics.record_version_conflict();
             // Readers must not validate against writes produced by an invalid incarnation.
@@ -828,6 +850,8 @@ where
             }
         }
 
+        #[cfg(grevm_verif)]
+        crate::verif::sched_point("win.validate.before_status");
         #[cfg(grevm_verif)]
         crate::verif::event(crate::verif::Event::Validate { txid, incarnation, ts, ok: !conflict });
         // update transaction status
@@ -847,6 +871,8 @@ where
         }
         drop(tx_result);
         drop(tx_state);
+        #[cfg(grevm_verif)]
+        crate::verif::sched_point("win.validate.before_notify");
         if txid == self.scheduler_ctx.finality_idx() {
             self.finality_wait.notify();
         }
@@ -871,6 +897,8 @@ where
     }
 
     fn execution_task(&self, execute_id: TxId) -> Option<Task> {
+        #[cfg(grevm_verif)]
+        crate::verif::sched_point("win.exec.claimed");
         let mut tx = self.tx_states[execute_id].lock();
         match tx.status {
             TransactionStatus::Initial | TransactionStatus::Conflict => {
@@ -899,6 +927,8 @@ where
             if let Some(validation_idx) =
                 self.scheduler_ctx.next_validation_idx(self.tx_dependency.index())
             {
+                #[cfg(grevm_verif)]
+                crate::verif::sched_point("win.next.validation_claimed");
                 let mut tx = self.tx_states[validation_idx].lock();
                 // Rewinds can make cursor claims duplicate or stale; state under this lock decides
                 // whether a validation task still exists.
